@@ -165,6 +165,9 @@ func ParseChunk(buf []byte) (*Chunk, error) {
 	if err != nil {
 		return nil, fmt.Errorf("failed to read compression: %w", err)
 	}
+	if uint64(len(buf)-offset) < recordsLength {
+		return nil, fmt.Errorf("chunk records length %d exceeds record: %w", recordsLength, io.ErrShortBuffer)
+	}
 	records := buf[offset : offset+int(recordsLength)]
 	return &Chunk{
 		MessageStartTime: messageStartTime,
